@@ -339,8 +339,11 @@ fn check_meta(c: &InputCase, rec: &mut CaseRec) -> Verdict {
         rec.excluded = 1;
         return Verdict::Pass;
     }
-    let lines_a = render_program(&c.prog, c.style);
-    let lines_b = render_program(&replaced, c.style);
+    // identical texts except for the replaced statements (see C07: renderer randomness
+    // must not differ between the two variants)
+    let plain = Style { redundant_parens: 0, spacing: 0, case: c.style.case.min(1), question_mark: false, salt: 0 };
+    let lines_a = render_program(&c.prog, plain);
+    let lines_b = render_program(&replaced, plain);
     let ta = match load_and_run(&lines_a, c.seed, &c.replies, 4 * BUDGET, &mut NoHost) {
         Err(Crash(p)) => return Verdict::fail("panic", p),
         Ok(Err(e)) => return Verdict::fail("valid-line-rejected", format!("{:?}", e)),
